@@ -393,6 +393,7 @@ class FiberEngine : public Engine {
     const char *property() const override { return "C17"; }
     uint64_t tag() const override { return 0x1701; }
     bool restart_after_violation() const override { return true; }
+    unsigned cold_start_every() const override { return 32; }
     std::vector<std::string> fixed_args() const override {
         return {"task", "in", "enc", "family", "precision", "mode", "cfg", "bits", "threshold", "id"};
     }
@@ -425,6 +426,9 @@ class FiberEngine : public Engine {
         default: p.set_knob("strategy", "seq"); break;
         }
         p.set_knob("ntasks", std::to_string(ntasks));
+        // which pass runs first: with "concurrent" the tasks meet library code that has
+        // never run in this process (first-use initialisation) while they race
+        p.set_knob("first", r.chance(1, 6) ? "concurrent" : "alone");
         p.set_knob("packed_cfg", std::to_string(r.below(1000)));
         for (size_t i = 0; i < ninputs; i++) {
             Op in;
@@ -512,23 +516,31 @@ class FiberEngine : public Engine {
             return d.h;
         };
         uint64_t in_before = digest_inputs();
-        // ---- alone pass
+        // ---- alone pass (before or after the concurrent pass, see knob "first")
         std::vector<std::vector<uint64_t>> alone(ntasks), conc(ntasks);
-        fiber::alone_steps_reset();
-        for (size_t t = 0; t < ntasks; t++)
-            for (auto *c : programs[t]) {
-                ctx_note("task-alone call=" + c->kind);
-                alone[t].push_back(run_call(*c, sh, (int)t, (int)ntasks));
-            }
-        uint64_t est = fiber::alone_steps();
-        memset(sh.packed, 0, sh.packed_bytes);
-        memset(sh.bitwords, 0, sh.bitwords_n * 8);
+        bool concurrent_first = plan.knob("first", "alone") == "concurrent";
+        size_t ncalls_total = 0;
+        for (auto &prog : programs) ncalls_total += prog.size();
+        auto alone_pass = [&]() {
+            fiber::alone_steps_reset();
+            memset(sh.packed, 0, sh.packed_bytes);
+            memset(sh.bitwords, 0, sh.bitwords_n * 8);
+            for (size_t t = 0; t < ntasks; t++)
+                for (auto *c : programs[t]) {
+                    ctx_note("task-alone call=" + c->kind);
+                    alone[t].push_back(run_call(*c, sh, (int)t, (int)ntasks));
+                }
+            memset(sh.packed, 0, sh.packed_bytes);
+            memset(sh.bitwords, 0, sh.bitwords_n * 8);
+            return fiber::alone_steps();
+        };
+        uint64_t est = concurrent_first ? 3000 * (uint64_t)std::max<size_t>(ncalls_total, 1) : alone_pass();
         // ---- concurrent pass
         fiber::Config cfg;
         std::string strat = plan.knob("strategy", "random");
         cfg.seed = plan.seed;
         cfg.est_steps = std::max<uint64_t>(est, 1);
-        cfg.step_budget = est * 4 + 1000000;
+        cfg.step_budget = est * 8 + 4000000;
         if (sched && sched->arr("switches")) {
             cfg.strategy = fiber::REPLAY;
             cfg.replay = *sched->arr("switches");
@@ -549,6 +561,10 @@ class FiberEngine : public Engine {
         ctx_note("concurrent strategy=" + strat);
         fiber::Result fr = fiber::run(bodies, cfg);
         out.cases = 1;
+        if (concurrent_first) {
+            stat("runs_concurrent_pass_first");
+            alone_pass();
+        }
         uint64_t in_after = digest_inputs();
         // ---- event log
         g_log.u64(fr.steps);
